@@ -446,7 +446,27 @@ class _Generator(Generator):
                 ''
             ]
 
-        encode_lines = [
+        if type_.additions_index_to_member is not None:
+            # Only the extension root can be encoded and decoded.
+            unique_extension = self.add_unique_decode_variable(
+                'bool {};',
+                'extension_is_present')
+            extension_encode_lines = ['encoder_append_bool(encoder_p, false);']
+            extension_decode_lines = [
+                '{} = decoder_read_bool(decoder_p);'.format(unique_extension),
+                '',
+                'if ({}) {{'.format(unique_extension),
+                '    decoder_abort(decoder_p, EBADCHOICE);',
+                '',
+                '    return;',
+                '}',
+                ''
+            ]
+        else:
+            extension_encode_lines = []
+            extension_decode_lines = []
+
+        encode_lines = extension_encode_lines + [
             '',
             'switch (src_p->{}) {{'.format(choice),
             ''
@@ -458,7 +478,7 @@ class _Generator(Generator):
             ''
         ]
 
-        decode_lines = [
+        decode_lines = extension_decode_lines + [
             '{} = ({})decoder_read_non_negative_binary_integer(decoder_p, {});'.format(
                 unique_choice,
                 type_name,
@@ -504,10 +524,29 @@ class _Generator(Generator):
         else:
             encode_lines = ['{} = src_p->{};'.format(unique_value, location)]
 
+        decode_lines = []
+
+        if type_.additions_index_to_data is not None:
+            # Only the extension root can be encoded and decoded.
+            unique_extension = self.add_unique_decode_variable(
+                'bool {};',
+                'extension_is_present')
+            encode_lines.append('encoder_append_bool(encoder_p, false);')
+            decode_lines += [
+                '{} = decoder_read_bool(decoder_p);'.format(unique_extension),
+                '',
+                'if ({}) {{'.format(unique_extension),
+                '    decoder_abort(decoder_p, EBADENUM);',
+                '',
+                '    return;',
+                '}',
+                ''
+            ]
+
         encode_lines.append('encoder_append_non_negative_binary_integer(encoder_p, '
                             '{}, {});'.format(unique_value, type_.root_number_of_bits))
 
-        decode_lines = [
+        decode_lines += [
             '{} = ({})decoder_read_non_negative_binary_integer('
             'decoder_p, {});'.format(unique_value,
                                      type_name,
